@@ -46,6 +46,9 @@ type proposalState struct {
 	txs [][]byte
 	// misbehavior is the set of proposed misbehavior evidence (only set when we are the proposer).
 	misbehavior []types.Misbehavior
+	// lastCommit is the last commit information the proposal was executed with (only set when we
+	// are the proposer).
+	lastCommit *types.CommitInfo
 
 	// hash is the unique hash identifying this proposal. The hash is only available after the
 	// proposal has been generated and is otherwise empty.
@@ -65,9 +68,10 @@ type proposalState struct {
 func (ps *proposalState) isEqual(
 	header *cmtproto.Header,
 	txs [][]byte,
+	lastCommit *types.CommitInfo,
 	misbehavior []types.Misbehavior,
 ) bool {
-	if ps.header == nil {
+	if ps.header == nil || ps.lastCommit == nil {
 		return false
 	}
 	if !bytes.Equal(header.ProposerAddress, ps.header.ProposerAddress) {
@@ -80,6 +84,10 @@ func (ps *proposalState) isEqual(
 		return false
 	}
 	if !proto.Equal(header, ps.header) {
+		return false
+	}
+	// The last commit information is an input of block execution (fees, signing rewards).
+	if !proto.Equal(lastCommit, ps.lastCommit) {
 		return false
 	}
 	for i := range txs {
@@ -100,6 +108,7 @@ func (ps *proposalState) reset() {
 	ps.header = nil
 	ps.txs = nil
 	ps.misbehavior = nil
+	ps.lastCommit = nil
 	ps.hash = nil
 	ps.tree = nil
 	ps.resultsBeginBlock = nil
